@@ -133,6 +133,14 @@ def _z3_worker(conn: Any) -> None:
                         continue
                     res, detail = rp, (sp.reason_unknown() if rp == "unknown" else "")
                     break
+            if res == "sat" and parts is None:
+                # z3's sequence solver occasionally answers `sat` with a model that falsifies an assertion (seen with
+                # str.substr + uninterpreted functions; the answer flips with the random seed): such an answer is discarded
+                try:
+                    if any(zz.is_false(models[0].eval(a, model_completion=True)) for a in s.assertions()):
+                        res, detail, models = "unknown", "sat answer discarded: its model falsifies an assertion", []
+                except Exception:
+                    pass
             if res == "sat":
                 # ship the values of all constants so the parent need not re-solve
                 consts = {}
@@ -382,11 +390,30 @@ def syntactically_entailed(pc: list[Any], g: Any) -> bool:
     return holds(g)
 
 
+LAST_STATS: dict[str, int] = {}
+
+
+def default_jobs() -> int:
+    """Worker count: all cores (16) unless VERIF_JOBS or the untracked file /verif/.jobs_dev says otherwise
+    (development aid: many checks running side by side on one box)."""
+    v = os.environ.get("VERIF_JOBS")
+    if not v:
+        try:
+            with open(os.path.join(os.path.dirname(os.path.dirname(os.path.abspath(__file__))), ".jobs_dev")) as fh:
+                v = fh.read().strip()
+        except OSError:
+            v = ""
+    try:
+        return max(1, int(v)) if v else min(16, os.cpu_count() or 4)
+    except ValueError:
+        return min(16, os.cpu_count() or 4)
+
+
 def discharge(obs: list[Obligation], tier: str = "quick", jobs: int | None = None, both: bool = False) -> list[Verdict]:
     """Decide every obligation.  Phase 1: z3 with a short budget on everything.  Phase 2 (what is
     left): z3 with the full budget and cvc5 --strings-exp side by side; the first definitive answer
     wins (the two solvers are complementary on strings: each decides queries the other times out on)."""
-    jobs = jobs or min(16, os.cpu_count() or 4)
+    jobs = jobs or default_jobs()
     zb, cb = Z3_BUDGET[tier], CVC5_BUDGET[tier]
     verdicts: dict[int, Verdict] = {}
     texts: dict[int, str] = {}
@@ -444,6 +471,33 @@ def discharge(obs: list[Obligation], tier: str = "quick", jobs: int | None = Non
             for i, f in futs.items():
                 res, detail, secs = f.result()
                 record(i, res, detail, secs, "cvc5-1.0.3")
+    if tier == "thorough":
+        # cross-solver check: every solver-discharged obligation is also given to the *other* solver; a
+        # definite disagreement (unsat vs sat) withdraws the verdict (reported undecided, never a pass)
+        from concurrent.futures import ThreadPoolExecutor
+
+        LAST_STATS.update({"cross_checked": 0, "cross_agreed": 0, "cross_other_unknown": 0, "cross_disagreed": 0})
+        by_z3 = [i for i in pending if verdicts[i].result == "unsat" and verdicts[i].solver.startswith("z3")]
+        by_cvc5 = [i for i in pending if verdicts[i].result == "unsat" and verdicts[i].solver.startswith("cvc5")]
+        others: dict[int, str] = {}
+        with ThreadPoolExecutor(max_workers=jobs) as ex:
+            for i, f in {i: ex.submit(run_cvc5, texts[i], 10.0) for i in by_z3}.items():
+                res, detail, secs = f.result()
+                others[i] = res
+                verdicts[i].tried.append(("cvc5-cross", res, round(secs, 3)))
+        for i, (res, detail, secs) in _z3_pool(texts, {i: 10.0 for i in by_cvc5}, jobs).items():
+            others[i] = res
+            verdicts[i].tried.append(("z3-cross", res, round(secs, 3)))
+        for i, res in others.items():
+            LAST_STATS["cross_checked"] += 1
+            if res == "unsat":
+                LAST_STATS["cross_agreed"] += 1
+            elif res == "sat":
+                LAST_STATS["cross_disagreed"] += 1
+                verdicts[i].result = "unknown"
+                verdicts[i].detail = "solver disagreement: " + str(verdicts[i].tried)
+            else:
+                LAST_STATS["cross_other_unknown"] += 1
     return [verdicts[i] for i in range(len(obs))]
 
 
